@@ -273,7 +273,9 @@ def c11(ctx):
                     tree_a, tree_b = tree_from_dir(a), tree_from_dir(b)
                     inject = None
                     hook = None
-                    if r.random() < 0.25 and live:
+                    # (no mid-scan modification in a round whose clock was stepped back: its mtime would lie before the previous TIMESTAMP,
+                    #  which is outside the premise of C11)
+                    if r.random() < 0.25 and live and t_now > t_prev:
                         victim = r.choice(sorted(live))
                         at = r.randint(1, 4)
 
@@ -347,7 +349,15 @@ def c11(ctx):
                         expect.append(('incremental', la, replay))
                         reqs.append(model_round(tree_b, hashes, False, t_now, key))
                         expect.append(('full', lb, replay))
+                    # the previous TIMESTAMP of the next round is the one the Manifest really carries now (a run that found nothing
+                    # to change leaves the old one; with a clock that was stepped back that is not this run's start)
                     t_prev = t_now
+                    for x in manifests_of(lb).get('Manifest', b'').split(b'\n'):
+                        if x.startswith(b'TIMESTAMP '):
+                            try:
+                                t_prev = int(datetime.datetime.strptime(x.decode(), 'TIMESTAMP %Y-%m-%dT%H:%M:%SZ').replace(tzinfo=datetime.timezone.utc).timestamp())
+                            except ValueError:
+                                pass
                     if not comparable:
                         # the replicas have legitimately diverged (a skipped file): continue both from the fully updated one
                         shutil.rmtree(a)
